@@ -505,7 +505,9 @@ func (prog Progress) walkTransforming(n datamodel.Node, s selector.Selector, fn 
 
 func contains(interest []datamodel.PathSegment, candidate datamodel.PathSegment) bool {
 	for _, i := range interest {
-		if i == candidate {
+		// Path segments are stringly typed: an int-backed segment and the string
+		// form of the same number denote the same child, as they do for the read-only walk.
+		if i.Equals(candidate) {
 			return true
 		}
 	}
